@@ -96,10 +96,16 @@ def _none():
 
 def make_plan(rng, n, ok_rate=0.3):
     plan = []
+    said = []          # report lines the device has sent before: a periodic status report repeats verbatim while nothing moves
     for _ in range(n):
         status = []
         for _ in range(rng.choice([0, 1, 1, 2])):
-            line, rep = make_report(rng, rng.choice(["marlin_pos", "marlin_temp", "grbl", "prb", "grbl_w"]))
+            if said and rng.random() < 0.35:              # (added after seed C18c: an identical line was not parsed again)
+                line, rep = rng.choice(said)
+            else:
+                line, rep = make_report(rng, rng.choice(["marlin_pos", "marlin_temp", "grbl", "prb", "grbl_w"]))
+                line = list(line)
+                said.append((line, rep))
             status.append((list(line), rep))
         ack = None
         if rng.random() < ok_rate:
